@@ -108,6 +108,18 @@ func MakeMod(i int, variant string) Mod {
 	case 3:
 		v = fmt.Sprintf("v0.0.0-20240102150405-ABCdef%06d", i)
 	}
+	// how a version ends: a digit, or one of the letters of a pre-release word or a revision, among them the
+	// letters of the "/go.mod" suffix a lookup may carry
+	switch i % 8 {
+	case 5:
+		v += ".mod"
+	case 7:
+		v = fmt.Sprintf("v0.0.0-20240102150405-ABCdef%05dd", i)
+	case 4:
+		v += "-go"
+	case 6:
+		v += "-rc.g"
+	}
 	text := fmt.Sprintf("%s %s %s\n%s %s/go.mod %s\n", p, v, h1(p+v+variant), p, v, h1(p+v+"mod"+variant))
 	return Mod{p, v, []byte(text)}
 }
